@@ -459,6 +459,24 @@ fn gen_ease(r: &mut Rng, n: usize, out: &mut dyn Write) {
 }
 
 fn gen_pos(r: &mut Rng, n: usize, out: &mut dyn Write) {
+    // the helper's own Default, and the ordering of Repeat (Ord, PartialOrd, PartialEq, max)
+    writeln!(out, "posdef {}", [0.0f32, 0.25, 0.5, 1.0, 1.0000001, 2.0, -1.0, 1e9].iter().map(|t| b(*t)).collect::<Vec<_>>().join(" ")).unwrap();
+    // documented: no delay, a one-second cycle, no repeat (the defaults of a TimelineConfiguration), hence a total of 1 s;
+    // position t for t in [0,1], NotStarted before 0, terminal after 1
+    writeln!(out, "# expect C03 1 0={} 1={} 2=n 3={} 4=A{}:00 5=A{}:00 6=A{}:00 7=A{}:00 8=E{} 9=E{} 10=N 11=E{}", b(0.0), b(1.0), b(1.0), b(0.0), b(0.25), b(0.5), b(1.0), b(1.0), b(1.0), b(1.0)).unwrap();
+    let reps = ["n", "i", "0", "1", "2", "7", "4294967294", "4294967295"];
+    // the documented order of Repeat: Infinite above every count, counts by size, None as zero repetitions
+    let key = |t: &str| -> (u8, u64) { match t { "n" => (0, 0), "i" => (1, 0), k => (0, k.parse().unwrap()) } };
+    let mut cmp_line = |out: &mut dyn Write, a: &str, c: &str| {
+        let (ka, kc) = (key(a), key(c));
+        let sym = if ka < kc { "lt" } else if ka > kc { "gt" } else { "eq" };
+        writeln!(out, "repcmp {} {}", a, c).unwrap();
+        // (when the two compare equal — None and Times(0) — either is "the larger")
+        if sym == "eq" { writeln!(out, "# expect C12 1 0={} 1={} 2=0", sym, sym).unwrap(); }
+        else { writeln!(out, "# expect C12 1 0={} 1={} 2={} 4={}", sym, sym, (sym == "lt") as u8, if sym == "lt" { c } else { a }).unwrap(); }
+    };
+    for a in reps { for c in reps { cmp_line(out, a, c); } }
+    for _ in 0..(n / 20) { let (a, c) = (repeat_tok(r), repeat_tok(r)); cmp_line(out, &a, &c); }
     for i in 0..n {
         let exact = i % 3 == 0;
         let dur = if exact { r.pick(&DY_DURS) } else if r.chance(1, 5) { r.unit_f32() * 10.0 + 1e-3 } else { r.pick(&DURS) };
